@@ -4,7 +4,7 @@ cd /verif
 for d in /tmp/mut_C*_[cdefgh]; do
   [ -f $d/patch.diff ] && [ -f $d/demo.py ] && [ -f $d/notes.md ] || continue
   b=$(basename $d); id=${b#mut_}; prop=${id%_*}; x=${id#*_}
-  name="$prop-$x-round3"
+  name="$prop-$x-round4"
   ls -d seeded/$prop-$x-* >/dev/null 2>&1 && continue
   echo "=== $b"
   tools/confirm_mutant.sh $d $name $prop 2>&1 | tail -4 | cut -c1-500
